@@ -21,6 +21,6 @@ def templates(cfg):
             allt.append(dataclasses.replace(tp, name="c12~" + tp.name, props=("C12",), prog2=None))
     if cfg.tier != "quick":
         return allt
-    core = [t for t in allt if t.name.startswith(("c12~c03.", "c12~c17.", "c12~c04.none", "c12~c04.g."))]
+    core = [t for t in allt if t.name.startswith(("c12~c03.", "c12~c17.", "c12~c04.none", "c12~c04.g.", "c12~c05.typed", "c12~c05.aggwin"))]
     rest = [t for t in allt if t not in core]
     return core + rotated(rest, 80, cfg.seed)
